@@ -120,11 +120,11 @@ impl MultiPeerBackend for PubSocketBackend {
                             Some(Ok(m)) => backend.message_received(&peer_id, m),
                             Some(Err(e)) => {
                                 log::debug!("Error receiving message: {:?}", e);
-                                backend.peer_disconnected(&peer_id);
+                                backend.peer_disconnected(&peer_id).await;
                                 break;
                             }
                             None => {
-                                backend.peer_disconnected(&peer_id);
+                                backend.peer_disconnected(&peer_id).await;
                                 break
                             }
                         }
@@ -135,12 +135,12 @@ impl MultiPeerBackend for PubSocketBackend {
         });
     }
 
-    fn peer_disconnected(&self, peer_id: &PeerIdentity) {
+    async fn peer_disconnected(&self, peer_id: &PeerIdentity) {
         log::info!("Client disconnected {:?}", peer_id);
         if let Some(monitor) = self.monitor().lock().as_mut() {
             let _ = monitor.try_send(SocketEvent::Disconnected(peer_id.clone()));
         }
-        self.subscribers.remove_sync(peer_id);
+        self.subscribers.remove_async(peer_id).await;
     }
 }
 
@@ -195,7 +195,7 @@ impl SocketSend for PubSocket {
             iter = subscriber.next_async().await;
         }
         for peer in dead_peers {
-            self.backend.peer_disconnected(&peer);
+            self.backend.peer_disconnected(&peer).await;
         }
         Ok(())
     }
